@@ -130,8 +130,14 @@ def execute(args):
             if tr.protocol:                      # "while transport.protocol:" in sync_connect
                 state["nconn"] += 1
                 c = Conn(state["nconn"])
-                tr.protocol.connection_made(c)   # what ReaderThread.run does first
-                events.append({"a": "made", "c": c.cid, "m": 0, "who": "connector"})
+                # one specification step (K1): the new connection becomes visible and is logged without a switch in
+                # between, otherwise a write to it could be logged before the event that made it visible
+                sched.atomic = True
+                try:
+                    tr.protocol.connection_made(c)   # what ReaderThread.run does first
+                    events.append({"a": "made", "c": c.cid, "m": 0, "who": "connector"})
+                finally:
+                    sched.atomic = False
 
     actors = [(f"producer{k}", make_producer(k)) for k in range(nprod)] + [("pump", pump)]
     if lost is not None:
